@@ -1138,6 +1138,9 @@ def construct(eng, n, st):
         for s, vals in eng.ev_seq(args_n, st):
             vals = [eng.load(s, v) if isinstance(v, ElemRef) else v for v in vals]
             if short in ('tuple', 'list') and len(vals) == 1 and z3.is_expr(vals[0]) and z3.is_int(vals[0]):
+                if getattr(eng.cur_contract, 'sized_container_obligation', False):
+                    # PyTuple_New / PyList_New with a negative size fail (SystemError -> pybind11_fail with the indicator set)
+                    eng.oblige(s, 'II', f'py::{short}(n):size-is-not-negative', vals[0] >= 0, line)
                 r = fresh('new_' + short, Ref)
                 s.pc.append(M.py_len(r) == vals[0])
                 s.pc.append(r != NULL)
@@ -1182,6 +1185,9 @@ def construct(eng, n, st):
                 outs.append((s, PyObj(M.py_bool(vals[0]), fresh=True, stable=True)))
             elif short == 'str' and len(vals) == 1 and z3.is_expr(vals[0]) and vals[0].sort() == Str:
                 outs.append((s, PyObj(M.py_str(vals[0]), fresh=True, stable=True)))
+            elif short == 'str' and len(vals) == 1 and getattr(eng.cur_contract, 'on_str_from_value', None) is not None \
+                    and eng.cur_contract.on_str_from_value(eng, s, vals[0], line) is not None:
+                outs.append((s, eng.cur_contract.on_str_from_value(eng, s, vals[0], line, oblige=False)))
             elif short in ('bool_', 'str') and len(vals) == 1:
                 outs.append((s, PyObj(fresh('new_' + short, Ref), fresh=True, stable=True)))
             elif len(vals) == 1 and isinstance(vals[0], PyObj):
